@@ -29,6 +29,15 @@ def main():
         if not ok:
             ctx.violation("CANARY", "fixtures", ("fixtures/src/lib.rs", 0, ""),
                           "canary failure: %r" % ([d for d in det if not d.get("ok")],))
+        if a.tier == "thorough" and not os.environ.get("VERIF_DRYRUN"):
+            try:
+                from .sensitivity import run as sens
+                r = sens(prop)
+                ctx.cov["checker_sensitivity"] = r
+                print("  sensitivity on this tree: seeded changes reported %s, behaviour-preserving probes silent %s%s"
+                      % (r["mutants_reported"], r["probes_silent"], (", unexpected: %r" % [u["seed"] for u in r["unexpected"]]) if r["unexpected"] else ""))
+            except Exception as e:      # evidence about the checker only: never turns into a verdict about /repo
+                ctx.cov["checker_sensitivity"] = {"error": "%s: %s" % (type(e).__name__, e)}
     except Exception as e:   # fail closed
         traceback.print_exc()
         ctx.violation("CHECKER-ERROR", type(e).__name__, ("", 0, ""), "checker failed: %s" % e)
